@@ -53,6 +53,11 @@ class HarnessError(Exception):
     pass
 
 
+class BaseSyncFailed(HarnessError):
+    """the engine could not even mirror the base tree under the fair schedule: reported as a violation of the
+    property being checked (every engine property presupposes it), not as a harness failure"""
+
+
 class DictStorage(S.Storage):
     """boring reference storage (dict); snapshot = dict copy"""
     def __init__(self, rows=None, nxt=1):
@@ -154,13 +159,24 @@ class World:
             base = job.get("base", "B1")
             base = BASES[base] if isinstance(base, str) else base
             for op in base:
-                if not self._raw_user(0, op):
+                if not self._raw_user(int(self.opts.get("base_side", 0)), op):
                     raise HarnessError("base op failed %r" % (op,))
-            self.settle()
+            et = self.opts.pop("explicit_time", None)       # the base tree is synchronised with the whole-epoch clock
+            aging = self.cs.aging
+            if et is not None:
+                self.cs.aging = 0
+            try:
+                self.settle()
+            except NoQuiescence as e:
+                raise BaseSyncFailed("base tree: %s" % e)
+            self.cs.aging = aging
+            if et is not None:
+                self.opts["explicit_time"] = et
+                self.clock.t = float(math.floor(self.clock.t) + 100)
             if self.opts.get("check_base", True):
                 tl, tr = self.tree(0), self.tree(1)
                 if tl != tr:
-                    raise HarnessError("base tree not in sync: %r %r" % (tl, tr))
+                    raise BaseSyncFailed("base tree not in sync: %r %r" % (tl, tr))
             # base is not part of the observed history
             self.calls.clear()
             self.engine_writes.clear()
